@@ -212,7 +212,7 @@ def run(F, R, tier):
                 continue
             bm = ("payload", dec[0].result.t, "Ok", 0)
             idx = {id(e): i for i, e in enumerate(q.events)}
-            pnames = [p_.get("name") for p_ in F.hir(fn).get("params", []) if p_.get("k") == "bind"]
+            pnames = [sym.param_name(F, fn, i_) for i_ in range(len(F.hir(fn).get("params", [])))]
             app = [e for e in q.events if e.kind == "call" and e.fn is None and e.name in pnames]   # a call of the closure parameter
             r3.require(len(app) == 1 and sym.term(app[0].args[0]) == bm, (fn, "apply"), "the update closure is not applied exactly once to the decoded bitmap")
             enc = [e for e in q.calls(r"RevocationBitmap::to_endpoint$") if q.succeeded(e) is True and sym.term(e.args[0]) == bm]
